@@ -223,7 +223,7 @@ hypothesis `ChainReducible Î± mc` (`Lemmas/ChainIter.lean`): whenever `d(a,b) â‰
       (i) and (iii) are theorems there (`Lemmas/ChainExact.lean`).
 * `C12_linkage_ok`  the same through `linkage_with` for the four methods it routes to nnchain.
 
-NOT proved: `ChainReducible` for weighted / Ward over IEEE floats â€” it is FALSE there
+NOT proved: `ChainReducible` for Ward over IEEE floats (weighted: `Props/C12Weighted.lean`, reducible on floats under the sampled laws `HalfAddLaws`) â€” for Ward it is FALSE there
 (rounding breaks reducibility in ~11% of tied updates), so for these two methods totality of
 nnchain on floats is covered by the correspondence run and the oracle, not by a theorem.  For AVERAGE
 it was false too until the `fix:` commit of the crate (clamp of the mean from below); it is now a
